@@ -6,7 +6,7 @@ from common_tb import COMMON_TB
 CFG = dict(
     id="C12", tie="Tie.C12", n_quick=350, n_thorough=1500, thorough_seeds=3,
     rule="a case is one history on a fresh table t(id INTEGER [AUTO_INCREMENT] PK, v INTEGER [NOT NULL], s VARCHAR[1..4]) "
-         "[CHECK (v >= 0)]: 11 scripted histories (the witnesses of every defect found and since repaired, honest concurrent duplicates, "
+         "[CHECK (v >= 0)]: 12 scripted histories (the witnesses of every defect found and since repaired, honest concurrent duplicates, "
          "delete/re-insert, auto-increment mixed with explicit ids) plus random histories of 8-26 events by 1 session (60%) "
          "or 2 sessions interleaved under a random schedule (40%): autocommit statements, multi-statement implicit "
          "transactions, BEGIN/statement/COMMIT/ROLLBACK, CREATE [UNIQUE] INDEX on populated tables; statements: INSERT "
